@@ -382,6 +382,20 @@ fn surface(cx: &Cx) {
                 }
             }
         }
+        // the joint domain: every track code under every movement code (0 = no movement information, 1 = stopped,
+        // 124 = the fastest): the track is a field of its own and is transmitted whatever the speed is
+        for mov in 0..=124u8 {
+            for trk in 0..128u8 {
+                let me = me_bds06(tc, mov, 1, trk, (trk ^ mov) & 1, (trk >> 1) & 1, 1000, 2000);
+                let all = carriers(&me);
+                let pick = if mov <= 2 || mov >= 123 { &all[..] } else { &all[..1] };
+                for f in pick {
+                    if let Some(j) = dj(cx, "surface:track", f) {
+                        num(cx, "surface:track", &j, &["track"], trk as f64 * 360.0 / 128.0, 1e-9, f);
+                    }
+                }
+            }
+        }
     }
     cx.rep.part("surface", cx.n.load(Ordering::Relaxed), json!({}));
 }
